@@ -102,9 +102,21 @@ const FILES: [&str; 8] = [
 ];
 const DIRPATHS: [&str; 5] = ["d1/d2/x", "sqpack/ex2/y", "d0/z", "movie/ex1/m", "q"];
 
-fn rand_cmd(rng: &mut Rng) -> String {
+/// expansions whose `sqpack/<folder>` certainly exists at this point of the sequence (DeleteData does
+/// not create it: the generator aims at well-formed sequences)
+fn initial_dirs(tree: &str) -> Vec<u16> {
+    let mut v = vec![];
+    for (name, e) in [("sqpack/ffxiv/", 0u16), ("sqpack/ex1/", 1), ("sqpack/ex2/", 2), ("sqpack/ex12/", 12)] {
+        if tree.contains(name) {
+            v.push(e);
+        }
+    }
+    v
+}
+
+fn rand_cmd(rng: &mut Rng, have: &mut Vec<u16>) -> String {
     let main = *rng.pick(&[0u16, 4, 4, 10, 19, 0x123, 0xffff]);
-    let sub = *rng.pick(&[0u16, 0, 1, 0x0100, 0x0101, 0x0200, 0x0c00]);
+    let mut sub = *rng.pick(&[0u16, 0, 1, 0x0100, 0x0101, 0x0200, 0x0c00]);
     let file = rng.below(4);
     let off = match rng.below(50) {
         0 => rng.range(1000, 3000), // a data file of several hundred KiB
@@ -127,13 +139,35 @@ fn rand_cmd(rng: &mut Rng) -> String {
             _ => format!("DELD:{}", hex(b"movie")),
         },
         2..=6 => {
+            if !have.contains(&(sub >> 8)) {
+                have.push(sub >> 8);
+            }
             let blocks = rng.range(1, 4) as usize;
             let del = if rng.chance(1, 2) { 0 } else { rng.below(6) };
             format!("A:{}:{}:{}:{}:{}:{}", main, sub, file, off, del, rand_content(rng, 128 * blocks))
         }
-        7 | 8 => format!("D:{}:{}:{}:{}:{}", main, sub, file, off, rng.range(1, 5)),
-        9 | 10 => format!("E:{}:{}:{}:{}:{}", main, sub, file, off, rng.range(1, 5)),
-        11 | 12 => format!(
+        7 | 8 => {
+            // mostly into a repository directory that exists (1 in 16: anywhere)
+            if !have.contains(&(sub >> 8)) && !rng.chance(1, 16) {
+                if have.is_empty() {
+                    have.push(sub >> 8);
+                    return format!("E:{}:{}:{}:{}:{}", main, sub, file, off, rng.range(1, 5));
+                }
+                sub = (*rng.pick(&have) << 8) | (sub & 0xff);
+            }
+            format!("D:{}:{}:{}:{}:{}", main, sub, file, off, rng.range(1, 5))
+        }
+        9 | 10 => {
+            if !have.contains(&(sub >> 8)) {
+                have.push(sub >> 8);
+            }
+            format!("E:{}:{}:{}:{}:{}", main, sub, file, off, rng.range(1, 5))
+        }
+        11 | 12 => {
+            if !have.contains(&(sub >> 8)) {
+                have.push(sub >> 8);
+            }
+            format!(
             "H:{}:{}:{}:{}:{}:{}",
             rng.pick(&["D", "I"]),
             rng.pick(&["V", "I", "D"]),
@@ -141,7 +175,7 @@ fn rand_cmd(rng: &mut Rng) -> String {
             sub,
             file,
             rand_content(rng, 1024)
-        ),
+        )},
         13..=16 => {
             let nb = match rng.below(6) {
                 0 => 0,
@@ -178,7 +212,11 @@ fn rand_cmd(rng: &mut Rng) -> String {
             )
         }
         17 => format!("FD:{}:{}", rng.below(3), rng.pick(&FILES)),
-        18 => format!("FR:{}:{}", rng.below(3), rng.pick(&FILES)),
+        18 => {
+            let e = rng.below(3) as u16;
+            have.retain(|x| *x != e);
+            format!("FR:{}:{}", e, rng.pick(&FILES))
+        }
         _ => format!("FM:{}:{}", rng.below(3), rng.pick(&DIRPATHS)),
     }
 }
@@ -276,8 +314,9 @@ pub fn generate(thorough: bool, seed: u64, out: &mut dyn Write) {
             _ => rng.range(20, 60),
         };
         let mut cs = vec![target(*rng.pick(&[0u16, 0, 0, 1, 2, 3, 4]))];
+        let mut have = initial_dirs(&tree);
         for _ in 0..len {
-            cs.push(rand_cmd(&mut rng));
+            cs.push(rand_cmd(&mut rng, &mut have));
         }
         writeln!(out, "apply api={} tree={} cmds={}", api, tree, cs.join(",")).unwrap();
     }
@@ -288,11 +327,12 @@ pub fn generate(thorough: bool, seed: u64, out: &mut dyn Write) {
         let api = api_of(&mut rng, &mut tree);
         let np = rng.range(2, 5);
         let mut ps: Vec<String> = vec![];
+        let mut have = initial_dirs(&tree);
         for _ in 0..np {
             let len = rng.range(0, 8);
             let mut cs = vec![target(*rng.pick(&[0u16, 0, 2, 4]))];
             for _ in 0..len {
-                cs.push(rand_cmd(&mut rng));
+                cs.push(rand_cmd(&mut rng, &mut have));
             }
             ps.push(format!("cmds={}", cs.join(",")));
         }
